@@ -554,7 +554,9 @@ def run_lp_root_forms(rep, rng, thorough):
             for method in LP_ALL_METHODS:
                 for rep_i in range(3 if thorough else 1):
                     n = rng.randint(2, 4)
-                    data = {"c": [rng.choice([1.0, 2.0, -1.0, 0.5, 3.0, -2.0]) for _ in range(n)],
+                    csc = COST_SCALES[(len(form) + len(method) + rep_i + (sense == "max")) % len(COST_SCALES)]
+                    data = {"c": [rng.choice([1.0, 2.0, -1.0, 0.5, 3.0, -2.0]) * (csc if csc != "mixed" else (1e-8 if j % 2 else 1e7))
+                                  for j in range(n)],
                             "arr": [rng.choice([1.0, -2.0, 0.5, 4.0, -0.25]) for _ in range(n)],
                             "d": rng.choice([1.0, -3.0, 0.5, 2.5]), "k": rng.choice([2.0, -1.0, 0.5]),
                             "lb": rng.choice([0.0, -1.0]), "ub": rng.choice([2.0, 3.0]), "cap": rng.choice([2.0, 3.5, 5.0])}
@@ -707,6 +709,7 @@ def run_start_points(rep, rng, thorough):
 
 # ----------------------------------------------------------------------------- objective forms × types × magnitudes
 
+COST_SCALES = [1.0, 1e-9, 1e7, "mixed", 1.0, 1e-6, 1e12, 3e-5, 2.5e6]
 ARRAY_KINDS = ["float64", "list", "int64", "float32", "strided", "reversed", "fortran-col", "int8", "tuple"]
 SCALAR_KINDS = ["float", "int", "np.float64", "np.float32", "np.int64", "0-d", "bool"]
 OBJ_FORMS = ["c@(x+d)", "c@x+d", "-(c@x)+d", "2*(x.sum())+d", "(c@x)/2+d", "d-x.sum()", "-(x.sum())-d", "c@(d-x)",
@@ -850,7 +853,15 @@ def run_objective_forms(rep, rng, thorough):
             d = mags[(i // 3) % len(mags)]
             if skind in ("int", "np.int64", "bool") and abs(d) < 1.0 and d != 0.0:
                 d = 7.0
-            data = {"form": form, "n": n, "c": [rng.choice([1.0, 2.0, -1.0, 0.5, 3.0, -2.0, 100.0]) for _ in range(n)], "d": d,
+            cs = [rng.choice([1.0, 2.0, -1.0, 0.5, 3.0, -2.0, 100.0]) for _ in range(n)]
+            # magnitude of the cost vector: all tiny / all huge / mixed / ordinary (with a non-zero constant alongside)
+            cscale = COST_SCALES[(i // 5) % len(COST_SCALES)]
+            if akind == "int8" or (akind == "int64" and (cscale == "mixed" or cscale < 1.0)):
+                cscale = 1.0
+            cs = [v * (cscale if cscale != "mixed" else (1e-8 if j % 2 else 1e7)) for j, v in enumerate(cs)]
+            if cscale != 1.0 and d == 0.0:
+                d = 1250.0
+            data = {"form": form, "n": n, "c": cs, "d": d, "cscale": cscale,
                     "akind": akind, "skind": skind, "p": rng.choice([0.0, 1.0, -2.0, 0.5]),
                     "lb": rng.choice([0.0, -1.0]), "ub": rng.choice([2.0, 3.0]), "sense": "max" if i % 2 else "min",
                     "method": methods[(i // 2) % len(methods)] if form not in ("c@x+quad",) else ["auto", "SLSQP", "L-BFGS-B", "trust-constr"][i % 4]}
